@@ -103,6 +103,16 @@ def work(args):
     if "snapshot_error" in rec:
       meta["snapshot_error"] = rec.pop("snapshot_error")
     out.append((rec, meta))
+    if rec.get("outcome") == "written" and rng.random() < 0.15:
+      # the SAME document object edited through the model API after it has been written once (a style with a pixel length on
+      # a document that had none, another initial value, ...) and written again: nothing kept from the first write may show
+      M.edit_doc(doc, rng)
+      rec2, data2 = M.roundtrip(doc, {"fmt": cfg["fmt"], "fn": cfg["fn"], "fd": cfg["fd"]})
+      rec2["id"] = serial + 1000000
+      meta2 = dict(meta, serial=serial + 1000000, edited_after_first_write=True, xml=data2.decode("utf-8", "replace"))
+      if "snapshot_error" in rec2:
+        meta2["snapshot_error"] = rec2.pop("snapshot_error")
+      out.append((rec2, meta2))
   return out
 
 
